@@ -8,7 +8,7 @@ LEAK = ['--bounds-check', '--pointer-check', '--div-by-zero-check', '--signed-ov
 
 RP_ADD = dict(kind='direct', harness='replay/direct/schema_add_column.c', sources=['src/core/arena.c', 'src/core/error.c'], vars={'rep_i': 'rep_i', 'oom': 'oom'})
 AC = dict(replayer=RP_ADD, entry='h_add_column', unwind=6, functions=['carquet_schema_add_column', 'carquet_schema_free'], **SB)
-NOGROW = 'case split: num_elements < capacity (no reallocation); the growth path of schema_ensure_capacity (4 x realloc + memset of symbolic size) is UNDECIDED: every formulation exceeded 8 GB'
+NOGROW = 'case split: num_elements < capacity (no reallocation); the growth path of schema_ensure_capacity (4 x realloc + memset of symbolic size) is UNDECIDED for arbitrary capacity (every formulation exceeded 8 GB); bounded: c17_ensure_capacity_grow_cap{1,2,3}_req*, c17_add_column_grow_cap{1,2,3}'
 JOBS = [
     dict(name='c17_add_column_state', props=['C17'], defines=['CQV_PART=0', 'CQV_SCHEMA_MEMSET', 'CQV_NOGROW'], note=NOGROW, wip=False, est_s=40, **AC),
     dict(name='c17_add_column_def_level', props=['C17'], defines=['CQV_PART=1', 'CQV_SCHEMA_MEMSET', 'CQV_NOGROW'], wip=False,
@@ -49,17 +49,18 @@ JOBS += [
     dict(name='c17_find_column_b3', props=['C17', 'C02'], entry='h_find_column', harness='harness/C17/schema_find.c', overlays=[], level='bounded',
          bound='<= 3 leaf columns, <= 4 elements, names of length <= 4 (NUL within 5 bytes), all byte values', unwind=6,
          defines=['CQV_STR_EXACT=5'], extra_sources=['stubs/schema_stubs.c'], includes=['.'], functions=['carquet_schema_find_column'],
-         trusted=['stubs/schema_stubs.c: strcmp/strncmp/strlen exact models for strings with NUL within 5 bytes'], wip=True),
+         trusted=['stubs/schema_stubs.c: strcmp/strncmp/strlen exact models for strings with NUL within 5 bytes'], wip=False),
 ]
 GR = dict(harness='harness/C17/schema_grow.c', overlays=[], level='bounded', unwind=8, includes=['.'],
           extra_sources=['stubs/schema_stubs.c'], cbmc_flags=OOM, checks=LEAK,
           trusted=['CBMC realloc/calloc/malloc/free models (--malloc-may-fail --malloc-fail-null), stubs/schema_stubs.c: arena stubs, memset (typed zero / havoc)'])
 for cap in (1, 2, 3):
-    JOBS += [
-        dict(name='c17_ensure_capacity_grow_cap%d' % cap, props=['C17', 'C19'], entry='h_grow', functions=['schema_ensure_capacity', 'carquet_schema_free'],
-             defines=['CQV_CAP=%d' % cap, 'CQV_LIBC_REALLOC', 'CQV_SCHEMA_MEMSET'], wip=True,
-             bound='old capacity == %d (arrays of exactly that many entries, arbitrary contents), required <= %d; every allocation may fail' % (cap, 2 * cap + 1), **GR),
-        dict(name='c17_add_column_grow_cap%d' % cap, props=['C17', 'C19'], entry='h_add_column_grow', functions=['carquet_schema_add_column', 'schema_ensure_capacity', 'carquet_schema_free'],
-             defines=['CQV_CAP=%d' % cap, 'CQV_LIBC_REALLOC', 'CQV_SCHEMA_MEMSET'], wip=True,
-             bound='num_elements == capacity == %d; every allocation may fail' % cap, **GR),
-    ]
+    for req in (cap + 1, 2 * cap + 1):
+        JOBS.append(dict(name='c17_ensure_capacity_grow_cap%d_req%d' % (cap, req), props=['C17', 'C19'], entry='h_grow',
+                         functions=['schema_ensure_capacity', 'carquet_schema_free'],
+                         defines=['CQV_CAP=%d' % cap, 'CQV_REQ=%d' % req, 'CQV_LIBC_REALLOC', 'CQV_SCHEMA_MEMSET'], wip=False,
+                         bound='old capacity == %d (arrays of exactly that many entries, arbitrary contents), required == %d; every allocation may fail' % (cap, req), **GR))
+    JOBS.append(dict(name='c17_add_column_grow_cap%d' % cap, props=['C17', 'C19'], entry='h_add_column_grow',
+                     functions=['carquet_schema_add_column', 'schema_ensure_capacity', 'carquet_schema_free'],
+                     defines=['CQV_CAP=%d' % cap, 'CQV_LIBC_REALLOC', 'CQV_SCHEMA_MEMSET'], wip=False,
+                     bound='num_elements == capacity == %d; every allocation may fail' % cap, **GR))
